@@ -19,7 +19,9 @@ RULE = (
     "emit_anchored and render_comments the RenderedAnchor is built from state.current_line and state.col + 1 (and the source "
     "coordinates and text of the same item) after the pending indent was flushed, and nothing moves state.out/col/current_line "
     "between reading those and pushing the text. R5 strip_trailing_whitespace runs only under the option, on the final string, "
-    "and only trims line ends. R6 units: no byte length (str::len / String::len) flows into state.col or an anchor column."
+    "and only trims line ends. R6 units: no byte length (str::len / String::len) flows into state.col or an anchor column. R7 every "
+    "write to state.out outside the flush / break / comment helpers is preceded on every path by flush_pending(_with_indent), in the "
+    "function itself or at every call site of a helper: text written while an indent is pending shifts the cursor of that line."
 )
 
 CRATES = ["veryl_pretty"]
@@ -288,6 +290,46 @@ def run(world, tier, info, only=None):
     else:
         ck.ob("R5", "strip/every-line-kept", None, site(s_st), "loop shape not recognised")
 
+    # ------------------------------------------------------------------ R7 no output while an indent is pending
+    FLUSH = re.compile(r"^veryl_pretty::render::flush_pending(_with_indent)?$")
+    EXEMPT7 = {M + "flush_pending": "is the flush", M + "flush_pending_with_indent": "is the flush",
+               M + "emit_break": "writes the newline itself and replaces the pending indent (back-to-back breaks give blank lines)",
+               M + "render_comments": "tracks `pending` itself and clears pending_indent after writing its own padding",
+               M + "strip_trailing_whitespace": "works on a copy of the finished string"}
+    n7 = 0
+    for p7, s7 in sorted(w.fns.items()):
+        if not p7.startswith(M) or s7.get("alias_of") or "::tests::" in p7 or p7 in EXEMPT7:
+            continue
+        if not any(re.search(r"^alloc::string::String::push(_str)?$", c["c"] or "") for c in s7["calls"]):
+            continue
+        g7 = Fn(w.mir(p7))
+        an7 = {g7.name(i): i for i in range(1, g7.nargs + 1)}
+        if "state" not in an7:
+            continue
+        m7 = MustFacts(g7)
+        pushes7 = [(bi, t) for bi, t in g7.calls(r"^alloc::string::String::push(_str)?$") if _is_state_out(g7, t["args"][0], an7["state"])]
+        for bi, t in pushes7:
+            n7 += 1
+            F = m7.at_entry(bi) or ()
+            local_ok = any(a[0] == "called" and FLUSH.search(a[1]) for a in F)
+            ok = local_ok
+            why = "flush_pending ran before this write"
+            if not ok:
+                # a helper: every call site must have flushed before calling it
+                sites7 = []
+                for q, sq in w.fns.items():
+                    if q.startswith(M) and not sq.get("alias_of") and any(c["c"] == p7 for c in sq["calls"]):
+                        gq = Fn(w.mir(q))
+                        mq = MustFacts(gq)
+                        for cb, ct in gq.calls("^" + re.escape(p7) + "$"):
+                            Fq = mq.at_entry(cb) or ()
+                            sites7.append(any(a[0] == "called" and FLUSH.search(a[1]) for a in Fq))
+                ok = bool(sites7) and all(sites7)
+                why = "every caller flushes the pending indent before calling this helper"
+            ck.ob("R7", "flush-before-write:%s@%d" % (p7.split("::")[-1], _ordinal_call(g7, pushes7, bi)), ok, site(s7, t["l"]),
+                  why if ok else "state.out is written while an indent may still be pending: the indent is flushed later with an absolute column, "
+                  "so the cursor (and every anchor recorded after it on that line) is off by what was written here")
+    ck.floor("R7", "writes to state.out outside the flush/break/comment helpers", n7, 8)
     # ------------------------------------------------------------------ R6 units
     n_col = 0
     for name in ("render_frame", "emit_anchored", "render_comments", "emit_break", "flush_pending", "flush_pending_with_indent"):
@@ -399,6 +441,14 @@ def anchor_obligations(ck, w, name, item_kind, R2="R2", R4="R4"):
             late = [gb for gb in gates if g.reaches(g.blocks[gb]["t"]["to"], bi, avoid=[head] if head is not None else [])]
             ck.ob(R4, name + "/anchor-before-text", not late, site(s, t["l"]),
                   "the anchor is recorded before its text is pushed" if not late else "the anchor is recorded after the text was pushed (position is past the text)")
+
+
+def _ordinal_call(fn, lst, bi):
+    order = sorted(lst, key=lambda x: (x[1]["l"], x[0]))
+    for i, (b, _) in enumerate(order):
+        if b == bi:
+            return i + 1
+    return 0
 
 
 def _nth(fn, bi, si, field):
